@@ -314,4 +314,167 @@ theorem recoverAll_append (fmt : Format) (crc : Bytes → Nat) (a b : Image) :
     recoverAll fmt crc (a ++ b) = recoverAll fmt crc a ++ recoverAll fmt crc b := by
   simp [recoverAll]
 
+/-! ## names: listing order vs sequence order -/
+
+theorem hexChar_lt {a b : Nat} (ha : a < 16) (hb : b < 16) : (hexChar a < hexChar b ↔ a < b) ∧ (hexChar a = hexChar b ↔ a = b) := by
+  unfold hexChar
+  constructor <;> constructor <;> intro h <;> split at * <;> split at * <;> omega
+
+theorem nameLt_irrefl (s : Name) : nameLt s s = false := by
+  induction s with
+  | nil => rfl
+  | cons a s ih => simp [nameLt, ih]
+
+theorem lt_iff_div_mod (a b m : Nat) (hm : 0 < m) :
+    a < b ↔ a / m < b / m ∨ (a / m = b / m ∧ a % m < b % m) := by
+  have ha := Nat.div_add_mod a m
+  have hb := Nat.div_add_mod b m
+  have hra := Nat.mod_lt a hm
+  have hrb := Nat.mod_lt b hm
+  constructor
+  · intro h
+    by_cases hq : a / m < b / m
+    · exact Or.inl hq
+    · right
+      have hqe : a / m = b / m := by
+        apply Nat.le_antisymm
+        · exact Nat.div_le_div_right (Nat.le_of_lt h)
+        · omega
+      refine ⟨hqe, ?_⟩
+      rw [hqe] at ha
+      omega
+  · rintro (h | ⟨h1, h2⟩)
+    · have := Nat.mul_le_mul_left m (Nat.succ_le_of_lt h)
+      rw [Nat.mul_succ] at this
+      omega
+    · rw [h1] at ha; omega
+
+theorem nameLt_hexW (w a b : Nat) (ha : a < 16 ^ w) (hb : b < 16 ^ w) :
+    nameLt (hexW w a) (hexW w b) = decide (a < b) := by
+  induction w generalizing a b with
+  | zero => simp at ha hb; subst ha; subst hb; rfl
+  | succ w ih =>
+    have hm : 0 < 16 ^ w := Nat.pow_pos (by decide)
+    have hqa : a / 16 ^ w < 16 := by
+      rw [Nat.div_lt_iff_lt_mul hm]; rw [Nat.pow_succ] at ha; omega
+    have hqb : b / 16 ^ w < 16 := by
+      rw [Nat.div_lt_iff_lt_mul hm]; rw [Nat.pow_succ] at hb; omega
+    simp only [hexW, nameLt, Nat.mod_eq_of_lt hqa, Nat.mod_eq_of_lt hqb]
+    rw [ih _ _ (Nat.mod_lt a hm) (Nat.mod_lt b hm)]
+    have hc := hexChar_lt hqa hqb
+    have key := lt_iff_div_mod a b (16 ^ w) hm
+    by_cases h1 : a / 16 ^ w < b / 16 ^ w
+    · have : a < b := key.mpr (Or.inl h1)
+      simp [hc.1.mpr h1, this]
+    · by_cases h2 : a / 16 ^ w = b / 16 ^ w
+      · have heq : hexChar (a / 16 ^ w) = hexChar (b / 16 ^ w) := hc.2.mpr h2
+        simp only [heq, Nat.lt_irrefl, decide_false, Bool.false_or, beq_self_eq_true, Bool.true_and]
+        by_cases h3 : a % 16 ^ w < b % 16 ^ w
+        · simp [h3, key.mpr (Or.inr ⟨h2, h3⟩)]
+        · have : ¬ a < b := fun h => by
+            rcases key.mp h with h | h
+            · exact h1 h
+            · exact h3 h.2
+          simp [h3, this]
+      · have hne : ¬ hexChar (a / 16 ^ w) < hexChar (b / 16 ^ w) := fun h => h1 (hc.1.mp h)
+        have hne2 : ¬ hexChar (a / 16 ^ w) = hexChar (b / 16 ^ w) := fun h => h2 (hc.2.mp h)
+        have : ¬ a < b := fun h => by
+          rcases key.mp h with h | h
+          · exact h1 h
+          · exact h2 h.1
+        simp [hne, hne2, this]
+
+theorem nameLt_append_left (p x y : Name) : nameLt (p ++ x) (p ++ y) = nameLt x y := by
+  induction p with
+  | nil => rfl
+  | cons a p ih => simp [nameLt, ih]
+
+theorem nameLt_append_right (x y s : Name) (hl : x.length = y.length) :
+    nameLt (x ++ s) (y ++ s) = nameLt x y := by
+  induction x generalizing y with
+  | nil =>
+    cases y with
+    | nil => simp [nameLt_irrefl, nameLt]
+    | cons b y => simp at hl
+  | cons a x ih =>
+    cases y with
+    | nil => simp at hl
+    | cons b y =>
+      simp only [List.length_cons, Nat.add_right_cancel_iff] at hl
+      simp only [List.cons_append, nameLt, ih y hl]
+
+theorem hexW_length (w n : Nat) : (hexW w n).length = w := by
+  induction w generalizing n with
+  | zero => rfl
+  | succ w ih => simp [hexW, ih]
+
+/-- below 2^32 every name has exactly 8 digits -/
+theorem walName_small (a : Nat) (ha : a < 2 ^ 32) : walName a = walPrefix ++ (hexW 8 a ++ walSuffix) := by
+  unfold walName
+  have : Nat.max 8 (hexDigits a) = 8 := by
+    unfold hexDigits
+    split
+    · rfl
+    · rename_i h0
+      have := (Nat.log2_lt h0 (k := 32)).mpr ha
+      apply Nat.max_eq_left
+      omega
+  rw [this]
+
+/-! ## directories -/
+
+theorem mem_insertBySeq (x y : Nat × Bytes) (l : List (Nat × Bytes)) :
+    y ∈ insertBySeq x l ↔ y = x ∨ y ∈ l := by
+  induction l with
+  | nil => simp [insertBySeq]
+  | cons z zs ih =>
+    simp only [insertBySeq]
+    split
+    · simp
+    · simp only [List.mem_cons, ih]
+      constructor
+      · rintro (h | h | h)
+        · exact Or.inr (Or.inl h)
+        · exact Or.inl h
+        · exact Or.inr (Or.inr h)
+      · rintro (h | h | h)
+        · exact Or.inr (Or.inl h)
+        · exact Or.inl h
+        · exact Or.inr (Or.inr h)
+
+theorem mem_sortBySeq (y : Nat × Bytes) (l : List (Nat × Bytes)) : y ∈ sortBySeq l ↔ y ∈ l := by
+  unfold sortBySeq
+  induction l with
+  | nil => simp
+  | cons x xs ih => simp only [List.foldr_cons, mem_insertBySeq, ih, List.mem_cons]
+
+/-- what recovery returns from a directory: the entries of the files whose name parses -/
+theorem mem_recoverAllD (fmt : Format) (crc : Bytes → Nat) (dir : Dir) (e : Entry) :
+    e ∈ recoverAllD fmt crc dir ↔
+      ∃ p ∈ dir, (parseSeq p.1).isSome ∧ e ∈ fileEntries fmt crc p.2 := by
+  unfold recoverAllD recoverAll
+  rw [List.mem_flatMap]
+  constructor
+  · rintro ⟨q, hq, he⟩
+    rw [mem_sortBySeq] at hq
+    unfold walFiles at hq
+    rw [List.mem_filterMap] at hq
+    obtain ⟨p, hp, hpq⟩ := hq
+    cases hs : parseSeq p.1 with
+    | none => rw [hs] at hpq; cases hpq
+    | some s =>
+      rw [hs] at hpq
+      simp only [Option.map_some, Option.some.injEq] at hpq
+      subst hpq
+      exact ⟨p, hp, by rw [hs]; rfl, he⟩
+  · rintro ⟨p, hp, hs, he⟩
+    cases hs' : parseSeq p.1 with
+    | none => rw [hs'] at hs; cases hs
+    | some s =>
+      refine ⟨(s, p.2), ?_, he⟩
+      rw [mem_sortBySeq]
+      unfold walFiles
+      rw [List.mem_filterMap]
+      exact ⟨p, hp, by rw [hs']; rfl⟩
+
 end RedisVerif.Wal
